@@ -120,6 +120,9 @@ def run(tier, seed):
     cov['s1_zones'] = len(zones); cov['s1_links'] = len(links); cov['s1_dropped_by_normaliser'] = sorted(dropped)
     do_source('S1-2025b', text, names, [(2000, 2050)] + ([(2000, 2038), (2010, 2030)] if thorough else []),
               arduino={'step': 60 if thorough else 3600, 'win': 0 if thorough else 3 * 3600})
+    if thorough:
+        # windows reaching back before 2000 (the compiler accepts any start year): python language only
+        do_source('S1-2025b', text, names, [(1980, 2050), (1990, 2030), (2005, 2049)])
     # ---- S2: sources reconstructed from the three shipped databases
     for db in ('zonedbx', 'zonedb'):
         t2, z2, l2 = tzsrc.reconstruct_cpp(os.path.join(runner.REPO, 'src/ace_time', db))
